@@ -493,3 +493,37 @@ def cfg_step_ok(G, x, y, kind):
         for r in G.R:
             if r.variable == x[i] and list(x[:i]) + list(r.alternative.symbols) + list(x[i + 1:]) == list(y): return True
     return False
+
+# ------------------------------------------------------------------------------------------------ exact comparison helpers
+def product_search(machines, pred, Sigma):
+    """machines: list of (start, step(state, a) -> state, accepting(state) -> bool).  BFS over the synchronous product;
+    returns None if pred(tuple of acceptance bits) holds in every reachable product state, else a shortest witness word"""
+    start = tuple(m[0] for m in machines); seen = {start: ''}; todo = deque([start])
+    while todo:
+        st = todo.popleft()
+        if not pred(tuple(m[2](s) for m, s in zip(machines, st))): return seen[st]
+        for a in sorted(Sigma):
+            nx = tuple(m[1](s, a) for m, s in zip(machines, st))
+            if nx not in seen: seen[nx] = seen[st] + a; todo.append(nx)
+    return None
+def m_dfa(D): return (D.q0, lambda s, a: D.delta[s, a], lambda s: s in D.F)
+def m_partial_dfa(D):
+    return (D.q0, lambda s, a: D.delta.get((s, a)) if s is not None else None, lambda s: s is not None and s in D.F)
+def m_nfa(N): return (frozenset(Eclo(N, {N.q0})), lambda S, a: frozenset(Eclo(N, move(N, S, a))), lambda S: bool(S & N.F))
+def m_reverse_of_dfa(D):
+    """reference automaton for the mirror image of L(D): subsets of D.Q, backwards"""
+    return (frozenset(D.F), lambda S, a: frozenset(q for q in D.Q if D.delta[q, a] in S), lambda S: D.q0 in S)
+def m_prefix_free_of_dfa(D):
+    """w in L(D) and no proper prefix of w in L(D): after the first visit of an accepting state everything is rejected"""
+    return ((D.q0, False), lambda s, a: (None, True) if (s[1] or s[0] in D.F) else (D.delta[s[0], a], False), lambda s: (not s[1]) and s[0] in D.F)
+def m_non_extendable_of_dfa(D):
+    def dead_end(q):       # no accepting state reachable from q by a non-empty path
+        seen = set(); todo = [q]
+        while todo:
+            x = todo.pop()
+            for a in D.Sigma:
+                y = D.delta[x, a]
+                if y in D.F: return False
+                if y not in seen: seen.add(y); todo.append(y)
+        return True
+    return (D.q0, lambda s, a: D.delta[s, a], lambda s: s in D.F and dead_end(s))
